@@ -152,6 +152,11 @@ def binding_selftest(ctx: Ctx) -> None:
     bad3["events"][i1], bad3["events"][i2] = bad3["events"][i2], bad3["events"][i1]
     v = l1.validate(scn, [good, bad1, bad2, bad3])
     ctx.add_tlc(v.res)
+    if not v.accepted[0]:
+        # the library's own straight-line execution is not a behaviour of the specification: that is a verdict about the
+        # code under test (reported by the conformance pass with the failing event), not a failure of the machinery
+        ctx.cov["binding_selftest"] = "skipped: the untouched solo trace is itself rejected (see the nonconformance reported by the conformance pass)"
+        return
     if v.accepted != [True, False, False, False]:
         raise MachineryError(f"binding self-test failed: accepted={v.accepted} (expected the untouched trace only)")
     ctx.cov["binding_selftest"] = "corrupted metadata body / dropped validation read / pointer flipped before metadata write: all rejected"
